@@ -140,6 +140,16 @@ def _b(x):
 REQS = z3.Function("declared_requirements", Z.Val, Z.Val)
 
 
+def _requirements_clause(c, rv, entry_point):
+    """which way the lookup of `digest.__requirements__` went on this path decides what the plugin must carry"""
+    looked = [d for (lab, d) in c.ctx.branch_log if lab == "getattr(__requirements__)"]
+    if len(looked) != 1:
+        return False                    # the digest's declaration was not consulted (exactly once)
+    if looked[0] == 0:
+        return rv.requirements.t == Z.attr_of(LOADED(entry_point.t), S("__requirements__"))
+    return c.And(Z.Val.id(rv.requirements.t) >= c.ctx.alloc0, c.Not(Z.Val.b(rv.requirements.required.t)))
+
+
 @contract(MAP + ":SectionPlugin.load", props=["C14"])
 class section_plugin_load:
     """a section plugin is read from its entry point: the section is the entry point's NAME, the digest is the loaded object, its
@@ -154,6 +164,7 @@ class section_plugin_load:
         return {"a-new-plugin-for-this-entry-point": c.And(rv.cls_is(MAP + ":SectionPlugin"), Z.Val.id(result.t) >= c.ctx.alloc0),
                 "section-is-the-entry-points-name": rv.section.t == entry_point.name.t,
                 "digest-is-the-loaded-object": rv.digest.t == LOADED(entry_point.t),
+                "requirements-are-the-digests-declared-ones-else-fresh-defaults": _requirements_clause(c, rv, entry_point),
                 "no-extras": c.Not(c.ctx.truth(SV(entry_point.extras.t, TAny())))}
 
     raises = {"ValueError": lambda c, cls, entry_point, exc: c.ctx.truth(SV(entry_point.extras.t, TAny())), "BaseException": lambda c, cls, entry_point, exc: True}
